@@ -1550,7 +1550,7 @@ func (a *align) AvgAllelesPerSite() float64 {
 // Entropy of the given site. If the site number is < 0 or > length -> returns an error
 // if removegaps is true, do not take into account gap characters
 func (a *align) Entropy(site int, removegaps bool) (float64, error) {
-	if site < 0 || site > a.Length() {
+	if site < 0 || site >= a.Length() {
 		return 1.0, errors.New("site position is outside alignment")
 	}
 
@@ -1571,8 +1571,15 @@ func (a *align) Entropy(site int, removegaps bool) (float64, error) {
 		}
 	}
 
-	for _, v := range occur {
-		proba := float64(v) / float64(total)
+	// Characters are visited in increasing order, so that the sum is
+	// always accumulated in the same order (same result on every call)
+	keys := make([]int, 0, len(occur))
+	for k := range occur {
+		keys = append(keys, int(k))
+	}
+	sort.Ints(keys)
+	for _, k := range keys {
+		proba := float64(occur[uint8(k)]) / float64(total)
 		entropy -= proba * math.Log(proba)
 	}
 
